@@ -27,17 +27,17 @@ structure Mem where
     whether all `n` bytes arrived, and the allocation requests made -/
 def growLoop (n : Nat) (got : Bytes) : Nat → Bytes → Nat → List Nat → Bytes × Bool × List Nat
   | 0, buf, _, al => (buf, false, al)
-  | f + 1, buf, have, al =>
-    let want := buf.length - have
-    let chunk := (got.drop have).take want
-    let buf' := buf.take have ++ chunk ++ buf.drop (have + chunk.length)
+  | f + 1, buf, hv, al =>
+    let want := buf.length - hv
+    let chunk := (got.drop hv).take want
+    let buf' := buf.take hv ++ chunk ++ buf.drop (hv + chunk.length)
     if chunk.length < want then (buf', false, al)
     else
-      let have' := buf'.length
-      if have' = n then (buf', true, al)
+      let hv' := buf'.length
+      if hv' = n then (buf', true, al)
       else
-        let size := if n - have' > have' then 2 * have' else n
-        growLoop n got f (buf' ++ zerosM (size - have')) have' (al ++ [size])
+        let size := if n - hv' > hv' then 2 * hv' else n
+        growLoop n got f (buf' ++ zerosM (size - hv')) hv' (al ++ [size])
 
 /-- readData(buf, n) fed with the bytes `got` the stream delivers: (buffer returned, complete?, allocations) -/
 def readDataMem (buf : Option Bytes) (n : Nat) (got : Bytes) : Bytes × Bool × List Nat :=
